@@ -82,7 +82,7 @@ def main():
         if os.path.exists(old_meta):
             try:
                 prev = json.load(open(old_meta))
-                for keep in ("neutralised", "history"):
+                for keep in ("neutralised", "history", "out_of_domain"):
                     if keep in prev:
                         meta[keep] = prev[keep]
             except ValueError:
